@@ -86,6 +86,52 @@ mod helpers {
         U: fmt::Display,
         P: fmt::Display,
     {
+        let response_body = post_soap_request(client, url, credentials, req).await?;
+        let response = yaserde::de::from_str(&response_body).map_err(SoapError::YaserdeError)?;
+        Ok(response)
+    }
+
+    /// Send a one-way request: the operation has no output message, so the body of the reply is not parsed.
+    pub(super) async fn send_one_way_soap_request<YI, U, P>(
+        url: &str,
+        credentials: Option<(U, P)>,
+        req: YI,
+    ) -> SoapResult<()>
+    where
+        YI: YaSerialize + CheckRestrictions,
+        U: fmt::Display,
+        P: fmt::Display,
+    {
+        let client = Client::new();
+        send_one_way_soap_request_using_client(&client, url, credentials, req).await
+    }
+
+    pub(super) async fn send_one_way_soap_request_using_client<YI, U, P>(
+        client: &Client,
+        url: &str,
+        credentials: Option<(U, P)>,
+        req: YI,
+    ) -> SoapResult<()>
+    where
+        YI: YaSerialize + CheckRestrictions,
+        U: fmt::Display,
+        P: fmt::Display,
+    {
+        post_soap_request(client, url, credentials, req).await?;
+        Ok(())
+    }
+
+    async fn post_soap_request<YI, U, P>(
+        client: &Client,
+        url: &str,
+        credentials: Option<(U, P)>,
+        req: YI,
+    ) -> SoapResult<String>
+    where
+        YI: YaSerialize + CheckRestrictions,
+        U: fmt::Display,
+        P: fmt::Display,
+    {
         req.check_restrictions(None)?;
         let body = yaserde::ser::to_string(&req).map_err(SoapError::YaserdeError)?;
         let mut req = client.post(url).body(body);
@@ -95,8 +141,7 @@ mod helpers {
         let response = req.send().await?;
         response.error_for_status_ref()?;
         let response_body = response.text().await?;
-        let response = yaserde::de::from_str(&response_body).map_err(SoapError::YaserdeError)?;
-        Ok(response)
+        Ok(response_body)
     }
 }
 
